@@ -70,6 +70,8 @@ _local = {}
 
 def install_shims():
     """make every lock the library can reach cooperative (before the tree is created)"""
+    import concurrent.futures
+
     import xarray.backends.locks as xl
 
     shim = sched.shim_namespace()
@@ -81,12 +83,22 @@ def install_shims():
         if getattr(mod, "threading", None) is threading:
             mod.threading = shim
         for k, v in list(vars(mod).items()):
-            if isinstance(v, real):
+            if v is concurrent.futures.Future:  # futures the library waits on: their condition becomes cooperative
+                setattr(mod, k, sched.coop_future_class())
+            elif isinstance(v, real):
                 setattr(mod, k, sched.CoopLock())
             elif isinstance(v, type):
                 for ak, av in list(vars(v).items()):
                     if isinstance(av, real):
                         setattr(v, ak, sched.CoopLock())
+            elif getattr(type(v), "__module__", "").startswith("ceos_alos2") and hasattr(v, "__dict__"):
+                # a module-level instance of a library class (registry, pool, ...) that created its lock at import time
+                for ak, av in list(vars(v).items()):
+                    if isinstance(av, real):
+                        try:
+                            setattr(v, ak, sched.CoopLock())
+                        except Exception:
+                            pass
 
 
 def setup():
